@@ -32,6 +32,7 @@ import (
 	"encoding/binary"
 	"fmt"
 	"math/big"
+	"os"
 	"sort"
 	"strings"
 	"time"
@@ -63,7 +64,9 @@ type twPool struct {
 	posIds  []uint64
 	hugeExp int
 	filler  bool
-	created int64 // height
+	mass    bool           // a modelled two-asset pool of a mass history (twap_tx_test.go): in the model and in the block oracle, not in the all-pairs rounds
+	addr    sdk.AccAddress // the pool account (twap_tx_test.go: own read of the pool's state)
+	created int64          // height
 }
 
 type twWorld struct {
@@ -76,7 +79,17 @@ type twWorld struct {
 	prunedAt time.Time         // LastKeptTime already reported to the model
 	family   []string
 	sameTime int // length of the current run of blocks with one timestamp
+
+	// twap_tx_test.go
+	mass   []*twPool         // modelled pools of a mass history that are not in `active`
+	seq    map[uint64]string // open block, per pool: 'S' a committed change, 'R' a change inside a transaction that was reverted, in order
+	rev    map[uint64]string // open block: pools changed inside a reverted transaction -> kind of that transaction
+	follow []*twPool         // pools of the block just closed that had reverted AND committed transactions: asked in the next blocks
+	lastT  time.Time         // time of the block just closed
 }
+
+// modelled: the pools the model and the block oracle know (everything but the fillers).
+func (w *twWorld) modelled() []*twPool { return append(append([]*twPool{}, w.active...), w.mass...) }
 
 var twFamilies = [][]string{
 	{"uusd", "uusdc", "uusdc.e", "uusdcz", "uusd/x", "uus", "uatom", "uatom0", "uusd-"},
@@ -194,13 +207,13 @@ func (e *twEngine) wPickDenoms(n int) []string {
 }
 
 // wCreatePool creates the next pool (a filler or an active pool) in the open block.
-func (e *twEngine) wCreatePool(filler bool) *twPool {
+func (e *twEngine) wCreatePool(filler, mass bool) *twPool {
 	r := e.r
 	w := e.w
-	p := &twPool{filler: filler, created: e.h.Ctx.BlockHeight()}
+	p := &twPool{filler: filler, mass: mass, created: e.h.Ctx.BlockHeight()}
 	var err error
 	var id uint64
-	isCL := !filler && r.Intn(6) == 0
+	isCL := !filler && !mass && r.Intn(6) == 0
 	if isCL {
 		p.kind = "cl"
 		p.denoms = e.wPickDenoms(2)
@@ -220,7 +233,7 @@ func (e *twEngine) wCreatePool(filler bool) *twPool {
 		})
 	} else {
 		n := 2
-		if !filler {
+		if !filler && !mass {
 			n = []int{2, 3, 3, 3, 4, 4, 5}[r.Intn(7)]
 		}
 		p.kind = fmt.Sprintf("bal%d", n)
@@ -231,7 +244,7 @@ func (e *twEngine) wCreatePool(filler bool) *twPool {
 			amt := e.randMag(6, 12)
 			wt := int64(1 + r.Intn(20))
 			switch {
-			case filler:
+			case filler || mass:
 				amt, wt = big.NewInt(int64(1000000+r.Intn(1000000))), 1
 			case shape == 0: // all prices exactly one
 				amt, wt = big.NewInt(1000000), 1
@@ -281,15 +294,21 @@ func (e *twEngine) wCreatePool(filler bool) *twPool {
 		}
 	}
 	w.pools[id] = p
-	e.o.Count("world.pool." + map[bool]string{true: "filler", false: "active." + p.kind}[filler])
-	if filler {
+	switch {
+	case filler:
+		e.o.Count("world.pool.filler")
 		return p
-	}
-	w.active = append(w.active, p)
-	for _, pr := range p.pairs {
-		if pr.sibling {
-			e.o.Count("class.world.pool-with-prefix-related-pairs")
-			break
+	case mass:
+		e.o.Count("world.pool.mass")
+		w.mass = append(w.mass, p)
+	default:
+		e.o.Count("world.pool.active." + p.kind)
+		w.active = append(w.active, p)
+		for _, pr := range p.pairs {
+			if pr.sibling {
+				e.o.Count("class.world.pool-with-prefix-related-pairs")
+				break
+			}
 		}
 	}
 	// the creation records: one per unique pair, prices = the pool's prices now
@@ -318,6 +337,7 @@ func (e *twEngine) wCreatePool(filler bool) *twPool {
 	}
 	e.o.Emit(fmt.Sprintf("twap wcreate %s %d %d %s", nsOf(t), hgt, id, strings.Join(line, " ")), strings.Join(obs, ";"), true)
 	w.own[id] = "create"
+	w.seq[id] += "S"
 	return p
 }
 
@@ -335,6 +355,7 @@ func (e *twEngine) wAct(p *twPool) {
 		return // an additional position does not move the price: not announced to the twap module
 	}
 	e.w.own[p.id] = e.lastAct
+	e.w.seq[p.id] += "S"
 }
 
 // ---------------------------------------------------------------- blocks
@@ -398,10 +419,44 @@ func (e *twEngine) wBlock(dt time.Duration) {
 			panic("twap world: changed pools are not in little-endian key order")
 		}
 	}
-	for id, kind := range w.own {
-		if !inChanged[id] {
-			o.Fail("track:price-moving-message-not-announced:"+kind, fmt.Sprintf("pool %d %s block %s/%d changed=%v", id, w.pools[id].kind, nsOf(t), hgt, changed))
+	// the pools of this block's record update as the ENGINE knows them: every pool with a COMMITTED price-moving message (own
+	// bookkeeping, whatever the twap module's changed-pool store says) and what the keeper announces on top, in store order
+	listedIds := append([]uint64{}, changed...)
+	inListed := map[uint64]bool{}
+	for _, id := range changed {
+		inListed[id] = true
+	}
+	for id := range w.own {
+		if !inListed[id] {
+			inListed[id] = true
+			listedIds = append(listedIds, id)
 		}
+	}
+	sort.Slice(listedIds, func(i, j int) bool { return leLess(listedIds[i], listedIds[j]) })
+	many := manyClass(len(listedIds))
+	for _, id := range listedIds {
+		if kind, mine := w.own[id]; mine && !inChanged[id] {
+			o.Fail("track:price-moving-message-not-announced:"+kind+w.txClass(id)+many, fmt.Sprintf("pool %d %s block %s/%d sequence of committed (S) / reverted (R) changes in the block %q, %d pools with committed changes, announced=%v",
+				id, w.pools[id].kind, nsOf(t), hgt, w.seq[id], len(w.own), changed))
+		}
+	}
+	for _, id := range changed {
+		p := w.pools[id]
+		if _, mine := w.own[id]; !mine && p != nil && !(p.filler && p.created == hgt) {
+			// pinned from the unchanged code: the announcement is part of the transaction's branch and goes away with it
+			o.Fail("track:pool-announced-without-committed-change"+w.txClass(id), fmt.Sprintf("pool %d %s block %s/%d sequence %q reverted tx %q announced=%v", id, p.kind, nsOf(t), hgt, w.seq[id], w.rev[id], changed))
+		}
+	}
+	for id := range w.rev {
+		switch {
+		case w.own[id] != "":
+		case inChanged[id]:
+		default:
+			o.Count("class.world.block.pool-touched-only-by-reverted-tx:not-announced")
+		}
+	}
+	if many != "" {
+		o.Count("class.world.block" + many)
 	}
 	// ---- expectations, from the own log and the own read of the end-of-block prices
 	type pairExp struct {
@@ -420,7 +475,7 @@ func (e *twEngine) wBlock(dt time.Duration) {
 	var line []string
 	var listed []*twPair
 	var listedPool []*twPool
-	for _, id := range changed {
+	for _, id := range listedIds {
 		p := w.pools[id]
 		if p == nil {
 			panic(fmt.Sprintf("twap world: unknown changed pool %d", id))
@@ -479,9 +534,17 @@ func (e *twEngine) wBlock(dt time.Duration) {
 		blockClass = "another-pool-rejected-in-block"
 	}
 	updated := map[uint64]bool{}
+	w.follow = nil
 	for i, pe := range exps {
 		p := pe.p
 		all := pe.nAcc == len(pe.pairs)
+		txc := w.txClass(p.id)
+		if txc != "" {
+			o.Count("class.world.update.pool" + txc)
+			if strings.Contains(w.seq[p.id], "R") {
+				w.follow = append(w.follow, p)
+			}
+		}
 		switch {
 		case all:
 			o.Count("world.update.pool-acceptable")
@@ -506,12 +569,13 @@ func (e *twEngine) wBlock(dt time.Duration) {
 				if g != nil && g.recent != nil {
 					rs = recStr(*g.recent)
 				}
-				return fmt.Sprintf("pool %d %s pair %s/%s block %s/%d changed pools %v pool prices %s most recent record %s", p.id, p.kind, pr.d0, pr.d1, nsOf(t), hgt, changed, x.q, rs)
+				return fmt.Sprintf("pool %d %s pair %s/%s block %s/%d changed pools %v (%d with committed changes; this pool's sequence of committed S / reverted R changes %q, reverted tx %q) pool prices %s most recent record %s",
+					p.id, p.kind, pr.d0, pr.d1, nsOf(t), hgt, changed, len(listedIds), w.seq[p.id], w.rev[p.id], x.q, rs)
 			}
 			if all {
 				updated[p.id] = true
 				if !fresh {
-					o.Fail("update:changed-pool-has-no-fresh-record:"+blockClass, detail())
+					o.Fail("update:changed-pool-has-no-fresh-record:"+blockClass+txc+many, detail())
 				} else {
 					if g.recent.P0LastSpotPrice.BigInt().Cmp(x.s0) != 0 || g.recent.P1LastSpotPrice.BigInt().Cmp(x.s1) != 0 {
 						o.Fail("update:recorded-price-is-not-end-of-block-pool-price", detail())
@@ -569,8 +633,8 @@ func (e *twEngine) wBlock(dt time.Duration) {
 		switch {
 		case p == nil:
 			o.Fail("store:record-of-unknown-pool-written", d)
-		case !inChanged[p.id]:
-			o.Fail("store:record-written-for-pool-that-did-not-change", d)
+		case !inListed[p.id]:
+			o.Fail("store:record-written-for-pool-that-did-not-change"+w.txClass(p.id), d)
 		case !en.rec.Time.Equal(t):
 			o.Fail("store:record-written-at-foreign-time", d)
 		}
@@ -622,6 +686,8 @@ func (e *twEngine) wBlock(dt time.Duration) {
 	}
 	w.prev = updated
 	w.own = map[uint64]string{}
+	w.seq, w.rev = map[uint64]string{}, map[uint64]string{}
+	w.lastT = t
 	if dt == 0 {
 		w.sameTime++
 	} else {
@@ -667,7 +733,7 @@ func (e *twEngine) wSyncPruning() {
 	}
 	o.Emit(fmt.Sprintf("twap wprune %s", nsOf(lk)), fmt.Sprintf("ok %d", total-nf), true)
 	o.Count("world.prune.pass")
-	for _, p := range w.active {
+	for _, p := range w.modelled() {
 		for _, pr := range p.pairs {
 			pr.hist = pr.hist[pr.keepFrom(lk):]
 			g := stored[pairName(p.id, pr.d0, pr.d1)]
@@ -892,7 +958,7 @@ func (e *twEngine) wPruneRound() {
 func (e *twEngine) runWorld(budget int) {
 	r, o := e.r, e.o
 	start := o.n
-	e.w = &twWorld{pools: map[uint64]*twPool{}, own: map[uint64]string{}, prev: map[uint64]bool{}}
+	e.w = &twWorld{pools: map[uint64]*twPool{}, own: map[uint64]string{}, prev: map[uint64]bool{}, seq: map[uint64]string{}, rev: map[uint64]string{}}
 	w := e.w
 	defer func() { e.w, e.wq, e.pickCut = nil, "", nil }()
 	w.family = twFamilies[r.Intn(len(twFamilies))]
@@ -921,10 +987,30 @@ func (e *twEngine) runWorld(budget int) {
 	o.Emit("twap reset", "ok", false)
 	o.Count("world.history")
 	// ---- pools: ids that are prefixes / neighbours of each other in the key encodings are active
+	// MASS history (twap_tx_test.go): the fillers become modelled two-asset pools and blocks change N of them at once, N over this
+	// history's half of twMassSizes (the halves alternate with the seed and the world's number: a quick run of four consecutive
+	// seeds covers all of them) plus two random sizes
+	var massNs []int
+	if e.massOK && os.Getenv("VERIF_TWAP_MASS") != "0" && (e.seed+int64(e.worldIdx))%2 == 1 {
+		half := int(((e.seed + int64(e.worldIdx)) >> 1) & 1)
+		for i, n := range twMassSizes {
+			if i%2 == half {
+				massNs = append(massNs, n)
+			}
+		}
+		massNs = append(massNs, 1+r.Intn(300), 1+r.Intn(300))
+		r.Shuffle(len(massNs), func(i, j int) { massNs[i], massNs[j] = massNs[j], massNs[i] })
+		o.Count("world.history.mass")
+	}
 	var maxId uint64
 	activeIds := map[uint64]bool{1: true, 2: true, 10: true, 11: true}
-	if r.Intn(3) == 0 {
+	if r.Intn(3) == 0 || massNs != nil {
 		maxId = uint64(257 + r.Intn(3))
+		for _, n := range massNs {
+			if uint64(n+12) > maxId {
+				maxId = uint64(n + 12) // (at most 12 active ids)
+			}
+		}
 		for _, id := range []uint64{12, 25, 100, 101, 110, 255, 256, 257} {
 			if r.Intn(2) == 0 {
 				activeIds[id] = true
@@ -946,7 +1032,7 @@ func (e *twEngine) runWorld(budget int) {
 			n = 1 + r.Intn(60)
 		}
 		for i := 0; i < n && id <= maxId; i++ {
-			p := e.wCreatePool(!activeIds[id])
+			p := e.wCreatePool(!activeIds[id] && massNs == nil, !activeIds[id] && massNs != nil)
 			if p.id != id {
 				panic(fmt.Sprintf("twap world: expected pool id %d, got %d", id, p.id))
 			}
@@ -957,6 +1043,9 @@ func (e *twEngine) runWorld(budget int) {
 		}
 		e.wBlock(e.wRandDt(false))
 		e.wSyncPruning()
+	}
+	for _, n := range massNs {
+		e.wMassBlock(n)
 	}
 	// ---- blocks
 	blocks := 24 + r.Intn(24)
@@ -1001,8 +1090,17 @@ func (e *twEngine) runWorld(budget int) {
 				}
 			}
 		}
+		if r.Intn(2) == 0 {
+			e.wTxPhase(w.active) // transactions, some of them reverted after they changed a pool (twap_tx_test.go)
+		}
 		e.wBlock(e.wRandDt(len(w.own) > 0 || same))
+		follow, closed := w.follow, w.lastT
 		e.wSyncPruning()
+		for _, p := range follow {
+			// pools with reverted AND committed transactions in the block just closed: the interval since that block
+			e.wAskInterval(p, p.pairs[r.Intn(len(p.pairs))], closed, e.h.Ctx.BlockTime())
+			o.Count("class.world.tx.question-on-pool-after-block-with-reverted-tx")
+		}
 		if r.Intn(2) == 0 {
 			for i, n := 0, 1+r.Intn(3); i < n; i++ {
 				p := w.active[r.Intn(len(w.active))]
